@@ -134,7 +134,10 @@ func c02SaveFaultProbe(c *Ctx) {
 		}
 	}
 	// the same block again after the fault is gone: does the node recover?
+	hook := c02IgnoredHook
+	c02IgnoredHook = nil // the half-saved block being ignored on redelivery IS the finding c02/save-error-block-stuck
 	v2, _ := c02InsertVerdict(n, blk)
+	c02IgnoredHook = hook
 	c.Count("save-fault:redelivery:" + v2)
 	after2 := s.fingerprint(blk.Hash(), blk.Txs)
 	if strings.HasPrefix(v, "save-error") && after2["current"] != blk.Hash().Hex() && after2["stable"] != blk.Hash().Hex() {
